@@ -11,43 +11,43 @@ RS = " Also rule RS: derived-state coherence dataflow (a memoised/derived attrib
 
 CHECKS = {
     "C01": (AI + " + sign domain on slice bounds + truth-table Boolean equality",
-            "Decides, for every input, the time-metadata algebra of every cropping site (start_time' = start_time + clamp(start)/sample_rate with CPython's slice.indices clamp, sample_rate' = sample_rate/step, stop_time, dt, the Boolean form of contains), that a signal without start time never acquires one, the crop ledgers of fast_len and time_shift(crop=True), and that every signal-level slice bound computed by library code is non-negative. Rule NT: the same scenario evaluated with Python numbers and with NumPy scalars (numpy.int64 is not an int, numpy.float32 is not a float) gives the same outcome. Not decided: floating-point rounding of astropy Time arithmetic." + RS,
+            "Decides, for every input, the time-metadata algebra of every cropping site (start_time' = start_time + clamp(start)/sample_rate with CPython's slice.indices clamp, sample_rate' = sample_rate/step, stop_time, dt, the Boolean form of contains), that a signal without start time never acquires one, the crop ledgers of fast_len and time_shift(crop=True), and that every signal-level slice bound computed by library code is non-negative. Rule NT: the same scenario evaluated with Python numbers and with NumPy scalars (numpy.int64 is not an int, numpy.float32 is not a float) gives the same outcome. The time ledger of every cropping operation (incl. incoherent dedispersion) does not depend on the unit a Quantity argument is held in. Not decided: floating-point rounding of astropy Time arithmetic." + RS,
             "real-number semantics for formulas; API table for numpy/astropy; expected terms transcribed from the property statement", "4/C01"),
     "C02": (AI + "; small-scope exhaustive enumeration of channel counts and slice bounds",
             "Decides the channel-label formula for all alignments and both parities (every radio class built through its own constructor chain, and after assigning freq_align through the setter), band edges, and that the labels of a frequency slice, of repeated/combined slices, of a trailing-axis selection and of a Stokes component selected by name - read back through the package's own channel_freqs property - equal the selected labels of the original. The frequency metadata of a slice is never re-cast to a narrower dtype. Rule NT: the same scenario evaluated with Python numbers and with NumPy scalars (numpy.int64 is not an int, numpy.float32 is not a float) gives the same outcome. Not decided: Quantity round-off." + RS,
             "real-number semantics; sympy", "4/C02"),
     "C03": (AI + " with explicit per-element arrays (indexed Sel terms, store sets, explicit np.where masks)",
-            "Decides the phase-ramp term ifft(fft(x)*exp(-2 pi i s k/N)) for scalar, Quantity and per-element array shifts (axis alignment of the shift read off the result term), NumPy and Dask branches, zero-fill coverage of the returned data for every broadcastable shift shape incl. sizes beyond every size threshold the code compares against and shift arrays containing the negative zero, crop bounds, the zero-fill extent of scalar shifts at chosen magnitudes (up to 1e5 samples with a small fraction, where a relative-tolerance snap would change it), unchanged metadata, refusal of too many shift axes. Not decided: DFT accuracy." + RS,
+            "Decides the phase-ramp term ifft(fft(x)*exp(-2 pi i s k/N)) for scalar, Quantity and per-element array shifts (axis alignment of the shift read off the result term), NumPy and Dask branches, zero-fill coverage of the returned data for every broadcastable shift shape incl. sizes beyond every size threshold the code compares against and shift arrays containing the negative zero, crop bounds, the zero-fill extent of scalar shifts at chosen magnitudes (up to 1e5 samples with a small fraction, where a relative-tolerance snap would change it), unchanged metadata, refusal of too many shift axes. Zero-fill stores count for the returned array only if it is the stored array, a view of it, or a copy taken after the store (also on BasebandSignal inputs). Not decided: DFT accuracy." + RS,
             "API table; real-number semantics; numpy basic-index store semantics", "4/C03"),
     "C04": (AI + " with explicit per-element arrays (store sets, explicit masks)",
             "Decides the mixer term, transform pairing fft->fftshift->zeroing->ifftshift->ifft, zero-fill coverage of the returned data in bins for every broadcastable shift shape (negative-zero elements and full-bandwidth shifts of broadcast shape included), unit handling of the shift, unchanged metadata; on ten exact whole-bin witnesses the zero-fill extent is evaluated in IEEE doubles (every operation of the source rounded to nearest-even) and must be the k wrapped bins; no third-party routine may overwrite an operand that is the caller's data. Out-of-band shifts (2x, -3/2x, exactly the sample rate) return the caller's class, dtype and ledger on every return path. Not decided: value accuracy." + RS,
             "API table; real-number semantics", "4/C04"),
     "C05": (AI,
-            "Decides the transfer-function term including units and the constant K (|H| = 1 and H(DM)H(-DM) = 1 derived; finite and equal to the limit at an infinite reference frequency), per-channel chirp plumbing for NumPy and Dask signals (declared dtype/shape of the delayed chirp), the filtered data term, crop start/stop terms with clamping (compared in the unsaturated and the saturated regime), start-time advance, supplied-chirp agreement (also for a chirp held on the other back end than the signal), that no deferred per-channel callable captures the loop variable by reference. Rule RF: an infinite reference frequency given as a bare float means the same as inf*u.Hz. Not decided: complex64 accuracy." + RS,
+            "Decides the transfer-function term including units and the constant K (|H| = 1 and H(DM)H(-DM) = 1 derived; finite and equal to the limit at an infinite reference frequency), per-channel chirp plumbing for NumPy and Dask signals (declared dtype/shape of the delayed chirp), the filtered data term, crop start/stop terms with clamping (compared in the unsaturated and the saturated regime), start-time advance, supplied-chirp agreement (also for a chirp held on the other back end than the signal), that no deferred per-channel callable captures the loop variable by reference. Rule RF: an infinite reference frequency given as a bare float means the same as inf*u.Hz. A signal scenario dedispersed to infinite frequency. Not decided: complex64 accuracy." + RS,
             "units as positive symbols; sympy", "4/C05"),
     "C06": (AI + "; fixed-delay scenarios for the realignment",
             "Decides the delay law with units, antisymmetry/additivity, sample_delay = time_delay*rate for any DM unit, the per-channel realignment identity (symbolic delays: lo_i - crop = round(delay_i), own channel, equal lengths, in-range sources; fixed delay patterns: any slicing strategy - per channel, blocks, one slice - yields channel i over [crop+r_i, crop+r_i+N-max)), start-time advance, ledger. Rule RF: an infinite reference frequency given as a bare float means the same as inf*u.Hz. Not decided: Quantity rounding." + RS,
             "units as positive symbols; round as floor(x+1/2)", "4/C06"),
     "C07": (AI + " on a model of Phase objects; identical-argument recursion detection; record-array shape rules",
-            "Decides the routing necessary for two-double results: no never-copy constructor on non-array operands, every ufunc family of the statement built by from_angles from the separate int/frac parts in operand order with the physical factor/divisor, termination, two-part correction, refinement step, returned value and out= routing of the floor-divide family also for Phase divisors, imaginary phases with an exactly-zero part, the real/imaginary flag of the result also when it is written into a supplied output Phase of the other kind, storage of both parts for operands of any broadcast shape (day_frac itself on operands that broadcast to a larger shape), refusal of arrays mixing real and imaginary elements, the real/imaginary sign table (i*i = -1); day_frac is additionally folded on ~60 concrete adversarial operand vectors (witness refutation of order-dependent or lossy accumulation, not a proof). Not decided: correctness of the error-free transformations for all doubles." + RS,
+            "Decides the routing necessary for two-double results: no never-copy constructor on non-array operands, every ufunc family of the statement built by from_angles from the separate int/frac parts in operand order with the physical factor/divisor, termination, two-part correction, refinement step, returned value and out= routing of the floor-divide family also for Phase divisors, imaginary phases with an exactly-zero part, the real/imaginary flag of the result also when it is written into a supplied output Phase of the other kind, storage of both parts for operands of any broadcast shape (day_frac itself on operands that broadcast to a larger shape), refusal of arrays mixing real and imaginary elements, the real/imaginary sign table (i*i = -1); day_frac is additionally folded on ~60 concrete adversarial operand vectors (witness refutation of order-dependent or lossy accumulation, not a proof). In-place forms (r %= d: the output is an operand) read the operands' original parts; the contents of a caller's out= quotient array; the kind flag a product really stores (Python bool or numpy.bool_) sent through add/subtract. Not decided: correctness of the error-free transformations for all doubles." + RS,
             "numpy>=2 copy=False semantics; astropy API table", "4/C07"),
     "C08": (AI + " on symbolic polyco text and a predictor-table model; CFG dominance; alias analysis of the table",
-            "Decides that from_polyco builds exactly the tempo polynomial (all coefficient counts, D/E exponents, reference phase split, 60*F0, domain scale), TMID precision (text or two doubles into Time), scalar/array branch agreement for any index order, derivative order and unit, range-check acceptance condition and dominance (also over the row lookup inside _get_index_and_dt), interval merging on concrete tables, that prediction methods never write the table, that the constructor hands the entries to the table in ascending TMID order whatever order they arrive in (the binary search over span ends relies on it). Not decided: 1e-8 accuracy of polynomial evaluation, root-finder convergence." + RS,
+            "Decides that from_polyco builds exactly the tempo polynomial (all coefficient counts, D/E exponents, reference phase split, 60*F0, domain scale), TMID precision (text or two doubles into Time), scalar/array branch agreement for any index order, derivative order and unit, range-check acceptance condition and dominance (also over the row lookup inside _get_index_and_dt), interval merging on concrete tables, that prediction methods never write the table, that the constructor hands the entries to the table in ascending TMID order whatever order they arrive in (the binary search over span ends relies on it). phasepol is evaluated on the polynomial exactly as from_polyco stores it; the functions time_at hands to the root finder look their argument up in the table. Not decided: 1e-8 accuracy of polynomial evaluation, root-finder convergence." + RS,
             "numpy.polynomial.Polynomial(domain=) semantics from the API table", "4/C08"),
     "C09": ("laziness taint analysis (forcing sinks) + " + AI + " on NumPy- and Dask-tagged signals + structural rules on graph keys and read splitting",
-            "Decides that no signal method/transform forces a possibly-Dask value outside the sanctioned explicit points, that every public operation builds the same term with the same class/metadata on both back ends and stays Dask-backed, declared dtype/shape of delayed results, that a hand-written Dask token or an explicit name= of a delayed bound method contains the object's identity or state, that a lazy read wraps the same single read as the eager one, that no deferred callable captures a loop variable by reference and no mutable default argument is mutated, that the data parameter of every signal constructor is not forced, that Dask arrays created inside FFT-based transforms are one chunk along the transformed axis, that a Dask-backed out=/in-place target ends up as the NumPy-backed one would (a refused multi-output call leaves every target untouched), that Dask data of unknown extent is accepted by the constructors. Not decided: scheduler independence, chunk-layout acceptance, bitwise value equality." + RS,
+            "Decides that no signal method/transform forces a possibly-Dask value outside the sanctioned explicit points, that every public operation builds the same term with the same class/metadata on both back ends and stays Dask-backed, declared dtype/shape of delayed results, that a hand-written Dask token or an explicit name= of a delayed bound method contains the object's identity or state, that a lazy read wraps the same single read as the eager one, that no deferred callable captures a loop variable by reference and no mutable default argument is mutated, that the data parameter of every signal constructor is not forced, that Dask arrays created inside FFT-based transforms are one chunk along the transformed axis, that a Dask-backed out=/in-place target ends up as the NumPy-backed one would (a refused multi-output call leaves every target untouched), that Dask data of unknown extent is accepted by the constructors. Lazy-read declarations (dtype, shape) against what the wrapped read returns; ufunc operands and options are possibly lazy in the taint analysis. Not decided: scheduler independence, chunk-layout acceptance, bitwise value equality." + RS,
             "API table of dispatching vs forcing numpy functions, re-validated against installed dask/numpy by introspection", "4/C09"),
     "C10": (AI + " reading path facts at the join",
             "Decides (also for pieces with zero samples in time, joined along frequency) that for every piece the sample-rate, channel-bandwidth, type, time-contiguity (cumulative), equal-start and equal/adjacent-label conditions are facts of the accepting path, the result's start time, data term, labels read back and override set, definite refusals. Rule NT: the same scenario evaluated with Python numbers and with NumPy scalars (numpy.int64 is not an int, numpy.float32 is not a float) gives the same outcome. Not decided: isclose tolerances." + RS,
             "astropy isclose semantics", "4/C10"),
     "C11": (AI + " against a stream-reader/file model + effect scans + alias analysis of memoised results",
-            "Decides bounds facts, operator.index flow, seek/read arguments, start time = time_at(offset), dtype/length, data term (conjugation, transposition, channel flip), reader state identical before/after and repeated read identical, Dask read = eager read (single read per request, declared dtype/shape), time_at/offset_at inverses also for relative times held in minutes or days (rounding in the held unit), no reading method writes reader state, tokeniser coverage, memoised results never written, factor-2 agreement for real data, real_to_complex against its definition on reader-shaped input (2n samples along axis 0, n = 1 included). Not decided: decoding inside baseband, real concurrency." + RS,
+            "Decides bounds facts, operator.index flow, seek/read arguments, start time = time_at(offset), dtype/length, data term (conjugation, transposition, channel flip), reader state identical before/after and repeated read identical, Dask read = eager read (single read per request, declared dtype/shape), time_at/offset_at inverses also for relative times held in minutes or days (rounding in the held unit), no reading method writes reader state, tokeniser coverage, memoised results never written, factor-2 agreement for real data, real_to_complex against its definition on reader-shaped input (2n samples along axis 0, n = 1 included). Sideband flags as Boolean mask, as a mask with every flag set, and as 0/1 integers. Not decided: decoding inside baseband, real concurrency." + RS,
             "baseband API modelled by the stream-reader model", "4/C11"),
     "C12": (AI,
             "Decides normalisation of t in all three forms (scale-aware Time difference), rejection guards, that shift, new start and final slice compose to start_time + t/sample_rate with exactly n samples (also for integer-dtype real data: no truncating cast), integer t takes the plain slice. Rule NT: the same scenario evaluated with Python numbers and with NumPy scalars (numpy.int64 is not an int, numpy.float32 is not a float) gives the same outcome. Not decided: interpolation accuracy; floating-point round-off of the bounds test for durations." + RS,
             "real-number semantics", "4/C12"),
     "C13": (AI + " over complex symbols with explicit polarisation components",
-            "Decides that a refused basis label leaves the old one, and all conversion and Stokes identities per branch (definitions of L/R, inverse, power, basis independence, I^2=Q^2+U^2+V^2, I=sum of intensities, component access by name on the Stokes axis also with trailing dimensions), whichever formulation (explicit formulas, matrix product, tensordot) the source uses. Not decided: float rounding." + RS,
+            "Decides that a refused basis label leaves the old one, and all conversion and Stokes identities per branch (definitions of L/R, inverse, power, basis independence, I^2=Q^2+U^2+V^2, I=sum of intensities, component access by name on the Stokes axis also with trailing dimensions), whichever formulation (explicit formulas, matrix product, tensordot) the source uses. Both complex widths; the identity path returns a new object like the converting path. Not decided: float rounding." + RS,
             "sympy", "4/C13"),
     "C14": ("inter-procedural may-alias (ownership) analysis with mutation sinks, function summaries and memoised-result roots",
             "Decides, for every input, that no library statement writes to anything that may alias an argument's object, buffer or metadata, or an object kept by a memo table (private derived attributes of self are sanctioned and handed to rule RS; overwrite_* options of third-party routines are sinks; __array__(copy=True) returns fresh storage; stores into the elements of an explicit out= tuple are the sanctioned mutation)." + RS,
@@ -62,7 +62,7 @@ CHECKS = {
             "Decides refusal of non-call methods and matmul before unwrapping, that signals among inputs/outs are replaced by their data and every other operand reaches the ufunc untouched (Python scalars stay scalars, Quantities keep their class), single call, kwargs forwarded (also together with out=), the promoted result dtype kept by the wrapper, rewrap in the dispatching signal's class or return of the given out object, Dask-backed out= targets left as NumPy would leave them (own dtype, or TypeError), __array__ protocol incl. copy=True returning a new array. An out= target of another signal class than the operand is validated by its own class. Not decided: per-ufunc values." + RS,
             "NumPy __array_ufunc__/__array__ protocol", "4/C17"),
     "C19": (AI + " on explicit arrays of symbols with exact DFT sums",
-            "Decides the definition for N = 1..9 (16 thorough) and ranks 1-3 on every axis: out[m] = (-1)^m analytic(x)[2m] with the one-sided weights, (-1)^m Re(out[m]) = x[2m], ceil(N/2) samples, other axes in place (also when empty), whatever transform pair is used; the symbolic-N result term, a double-precision mixer ramp whatever the data's precision, dtype rule, refusals, the factor-2 agreement with the readers, no overwrite_* option on caller data, no process-wide hook (scipy.fft backend registration, monkey-patching) installed by the package. Not decided: FFT round-off; N beyond the enumerated range is covered by the symbolic term rule only for the fft/ifft formulation." + RS,
+            "Decides the definition for N = 1..9 (16 thorough) and ranks 1-3 on every axis: out[m] = (-1)^m analytic(x)[2m] with the one-sided weights, (-1)^m Re(out[m]) = x[2m], ceil(N/2) samples, other axes in place (also when empty), whatever transform pair is used; the symbolic-N result term, a double-precision mixer ramp whatever the data's precision, dtype rule, refusals, the factor-2 agreement with the readers, no overwrite_* option on caller data, no process-wide hook (scipy.fft backend registration, monkey-patching) installed by the package. The dtype rule on the main path for narrow and integer dtypes. Not decided: FFT round-off; N beyond the enumerated range is covered by the symbolic term rule only for the fft/ifft formulation." + RS,
             "complex-number semantics; closed-form constants compared at 40 digits", "4/C19"),
     "C20": (AI + " of the module __getattr__ dispatcher + introspection of installed scipy/dask + exact small-instance STFT/ISTFT",
             "Decides the fourteen-name table, AttributeError for every other name (all other public names of the installed scipy.fft included), that each dispatcher applies the same-named scipy transform (NumPy) resp. fft_wrap of it (Dask) with arguments unchanged and a declared dtype equal to scipy's for eleven input dtypes; STFT definition, ISTFT(STFT) = id on explicit arrays, sample-rate/start-time/label identities for both parities and all alignments (single- and dual-polarisation input), no overwrite_* option on caller data, no process-wide hook into scipy.fft, and that neither transform writes into the signal it is given (in-place operators through reshape/swapaxes views). Not decided: numerical equality with the reference transform." + RS,
